@@ -700,3 +700,96 @@ class WrapperDefaultWhenNothingElse:
 
     def ensures_default_for_what_nobody_gives(a, kx, ky, kapp, _trace):
         return len(_trace) == 1 and _trace[0] == ("called", (a,), (("app_id", kapp), ("p", 0), ("x", kx), ("y", ky)))
+
+
+# ---- the block factories: `with controller(x=..., y=...)` makes a context of exactly the arguments given --------------------------------
+def _new_ctx_rec(E, obj, args, kwargs, st, node):
+    s = st.copy()
+    s.trace = ListV(s.trace.items + (("new_context", tuple(args), tuple(sorted(kwargs.items()))),))
+    return [(s, ObjV("Context", {"ident": 31}), None)]
+
+
+@contract("rig/machine_control/bmp_controller.py::BMPController.__call__")
+class BMPBlockFactory:
+    """`with bc(cabinet=c, frame=f, board=b)`: the new block carries exactly the three values given - ZERO included (cabinet 0,
+    frame 0, board 0 are the usual ones) - and nothing else"""
+    properties = ("C18",)
+    params = dict(self=TRec("BMPController"), g_c=TInt(0, 255), g_f=TInt(0, 255), g_b=TInt(0, 23))
+    externals = {"BMPController.get_new_context": _new_ctx_rec}
+    options = {"kwargs": {"cabinet": "g_c", "frame": "g_f", "board": "g_b"}}
+    assumptions = ["get_new_context (own contract NewContext) is recorded"]
+
+    def native(x):
+        raise __import__("pyvc.replay", fromlist=["OutsideHarness"]).OutsideHarness()
+
+    def ensures_exactly_the_arguments_given(g_c, g_f, g_b, result, _trace):
+        return (len(_trace) == 1 and _trace[0] == ("new_context", (), (("board", g_b), ("cabinet", g_c), ("frame", g_f)))
+                and result.ident == 31)
+
+
+@contract("rig/machine_control/machine_controller.py::MachineController.__call__")
+class MCBlockFactory:
+    """`with mc(x=.., y=.., p=.., app_id=..)`: the new block carries exactly the values given - zero included - and nothing else"""
+    properties = ("C18",)
+    params = dict(self=TRec("MachineController"), g_x=TInt(0, 255), g_y=TInt(0, 255), g_p=TInt(0, 17), g_app=TInt(0, 255))
+    externals = {"MachineController.get_new_context": _new_ctx_rec}
+    options = {"kwargs": {"x": "g_x", "y": "g_y", "p": "g_p", "app_id": "g_app"}}
+    assumptions = ["get_new_context (own contract NewContext) is recorded"]
+
+    def native(x):
+        raise __import__("pyvc.replay", fromlist=["OutsideHarness"]).OutsideHarness()
+
+    def ensures_exactly_the_arguments_given(g_x, g_y, g_p, g_app, result, _trace):
+        return (len(_trace) == 1 and _trace[0] == ("new_context", (), (("app_id", g_app), ("p", g_p), ("x", g_x), ("y", g_y)))
+                and result.ident == 31)
+
+
+def _ctx_class_rec(E, args, kwargs, st, node):
+    s = st.copy()
+    s.trace = ListV(s.trace.items + (("Context", args[1].fields["ident"] if isinstance(args[1], ObjV) else -1),))
+    return [(s, ObjV("Context", {"ident": 32, "given": args[0]}))]
+
+
+@contract("rig/utils/contexts.py::ContextMixin.get_new_context")
+class NewContext:
+    """the context made for a block holds exactly the arguments given and is tied to THIS object's own stack (entering it pushes
+    there, not on another controller's)"""
+    properties = ("C18", "C17")
+    params = dict(self=TRec("ContextMixin", _ContextMixin__context_stack=TRec("Stack", ident=TInt(0, 9))), g_x=TInt(0, 255), g_p=TInt(0, 17))
+    externals = {"class:Context": _ctx_class_rec}
+    options = {"kwargs": {"x": "g_x", "p": "g_p"}}
+    assumptions = ["the Context constructor (own contract ContextInit) is recorded: its first argument is kept, its second identified"]
+
+    def native(x):
+        raise __import__("pyvc.replay", fromlist=["OutsideHarness"]).OutsideHarness()
+
+    def ensures_given_arguments_on_this_objects_stack(self, g_x, g_p, result, _trace):
+        return (len(_trace) == 1 and _trace[0] == ("Context", self._ContextMixin__context_stack.ident)
+                and result.given["x"] == g_x and result.given["p"] == g_p and len(result.given) == 2)
+
+
+def _ctx_update_rec(E, obj, args, kwargs, st, node):
+    s = st.copy()
+    s.trace = ListV(s.trace.items + (("update", obj.fields["ident"], args[0]),))
+    return [(s, NONE, obj)]
+
+
+_CTXI = TRec("Context", ident=TInt(0, 99))
+
+
+@contract("rig/utils/contexts.py::ContextMixin.update_current_context")
+class UpdateCurrentContext:
+    """updating the current context changes the INNERMOST block in force (the last one on this object's stack) - with exactly the
+    arguments given - and no outer block, so the values come back when the block is left"""
+    properties = ("C18",)
+    params = dict(self=TRec("ContextMixin", _ContextMixin__context_stack=TList(_CTXI, _CTXI, _CTXI)), g_x=TInt(0, 255), g_app=TInt(0, 255))
+    externals = {"Context.update": _ctx_update_rec}
+    options = {"kwargs": {"x": "g_x", "app_id": "g_app"}}
+    assumptions = ["Context.update (a dict.update of the block's own dictionary: ownership contract of Context.__init__) is recorded with its receiver"]
+
+    def native(x):
+        raise __import__("pyvc.replay", fromlist=["OutsideHarness"]).OutsideHarness()
+
+    def ensures_only_the_innermost_block_is_updated_with_the_arguments_given(self, g_x, g_app, _trace):
+        return (len(_trace) == 1 and _trace[0][0] == "update" and _trace[0][1] == self._ContextMixin__context_stack[2].ident
+                and _trace[0][2]["x"] == g_x and _trace[0][2]["app_id"] == g_app and len(_trace[0][2]) == 2)
